@@ -40,7 +40,18 @@ type TplEngine struct {
 	Reads    []TplRead
 	Helpers  []TplHelperCall
 	Invokes  []TplInvoke
+	Emits    []TplEmit
 	Problems []string
+}
+
+// TplEmit is one output position ({{x}} or {{{x}}}): raymond HTML-escapes the former.
+type TplEmit struct {
+	Tpl       string
+	Expr      string   // helper name or path as written
+	Fields    []string // resolved fields for a plain path ("" for helpers/data)
+	Type      string
+	Unescaped bool
+	Line      int
 }
 
 // TplRead is one resolved context read.
@@ -354,7 +365,16 @@ func (tc *tchecker) walkProgram(t *Tpl, p *hast.Program, sc *tscope) {
 	for _, st := range p.Body {
 		switch n := st.(type) {
 		case *hast.MustacheStatement:
-			tc.evalExpr(t, n.Expression, sc, false)
+			res := tc.evalExpr(t, n.Expression, sc, false)
+			expr := n.Expression.HelperName()
+			if expr == "" || (tc.tw.Helpers[expr] == nil && !raymondBuiltins[expr]) {
+				if pe, ok := n.Expression.Path.(*hast.PathExpression); ok {
+					expr = pe.Original
+				}
+			} else {
+				expr = "helper:" + expr
+			}
+			tc.eng.Emits = append(tc.eng.Emits, TplEmit{Tpl: t.Name, Expr: expr, Fields: res.fields, Type: typeStr(res.typ), Unescaped: n.Unescaped, Line: n.Line})
 		case *hast.BlockStatement:
 			tc.walkBlock(t, n, sc)
 		case *hast.PartialStatement:
